@@ -2,11 +2,12 @@
    Property theorems only.  Model: Model/Expand.v (table.expandTableFile and the set-up closure it asks
    for, on classified lines) composed with Model/Setup.v (Eups.setup) for the exact-mode replay.
 
-   Notation.  [expand_gen jfix sfix w e top plist force rd ls]: the expansion of the table lines ls of
-   product top in world w and environment e, productList plist, raw dependency lists rd; jfix / sfix select
-   the repaired (true) or the pinned (false) treatment of -j lines / of the dependencies of an optional
-   product that is not set up.  [expand] is the repaired code, [expand_pinned] the pinned tree.  The first
-   four theorems hold for every variant, every graph (rd is arbitrary: conflicts, diamonds, cycles) and
+   Notation.  [expand_gen jfix sfix cfix w e top plist force rd ls]: the expansion of the table lines ls of
+   product top in world w and environment e, productList plist, raw dependency lists rd; jfix / sfix / cfix
+   select the repaired (true) or the pinned (false) treatment of -j lines / of the dependencies of an optional
+   product that is not set up / of a line whose closure cannot be collected while the error is passed over.
+   [expand] is the repaired code, [expand_pinned] the pinned tree.  The first
+   theorems hold for every variant, every graph (rd is arbitrary: conflicts, diamonds, cycles) and
    every environment.
    [recorded e n v]: SETUP_<N> in e names version v.  [exact_view out] / [inexact_view out]: the lines a
    reader of the expanded table sees with / without type == exact.  [pins_of out]: the lines
@@ -17,8 +18,8 @@ From Eupsv Require Model.Cond Model.Args Model.Blocks.
 
 (* every version pinned in the exact block was set up when the table was written, or was given
    explicitly in the productList - whatever the graph, conflicts included *)
-Theorem pins_only_setup_versions jf sf w e top plist force rd ls out o n v :
-  expand_gen jf sf w e top plist force rd ls = Ok out ->
+Theorem pins_only_setup_versions jf sf cf w e top plist force rd ls out o n v :
+  expand_gen jf sf cf w e top plist force rd ls = Ok out ->
   In (OPin o n v) out ->
   recorded e n v \/ alookup n plist = Some v.
 Proof. apply pins_sound. Qed.
@@ -32,9 +33,9 @@ Print Assumptions pins_only_setup_versions.
    whatever happened on the way, an expansion that reads the final environment pins only versions
    recorded in it (or given in the productList), and pins no product that has no SETUP_ variable in it.
    What the instance remembers having started does not count (remembered_is_not_set_up_refuted below). *)
-Theorem pins_only_what_setup_left_set_up jf sf w cfg fuel st0 ds req just ok st' ds' top plist force rd ls out o n v :
+Theorem pins_only_what_setup_left_set_up jf sf cf w cfg fuel st0 ds req just ok st' ds' top plist force rd ls out o n v :
   setup w cfg fuel st0 ds req true 0 just = RDone ok st' ds' ->
-  expand_gen jf sf w (s_env st') top plist force rd ls = Ok out ->
+  expand_gen jf sf cf w (s_env st') top plist force rd ls = Ok out ->
   In (OPin o n v) out ->
   (recorded (s_env st') n v \/ alookup n plist = Some v) /\
   (alookup (setup_var n) (s_env st') = None -> alookup n plist = Some v).
@@ -59,8 +60,8 @@ Print Assumptions failed_optional_is_rolled_back.
 
 (* the exact reading holds no setup line other than the pins: every setup line it runs is -j with an
    explicit version *)
-Theorem exact_block_is_pins_only jf sf w e top plist force rd ls out :
-  expand_gen jf sf w e top plist force rd ls = Ok out ->
+Theorem exact_block_is_pins_only jf sf cf w e top plist force rd ls out :
+  expand_gen jf sf cf w e top plist force rd ls = Ok out ->
   setups_of (exact_view out) = [] /\ pins_of (exact_view out) = pins_of out.
 Proof.
   intro E. split; [eapply exact_no_setup_line; eauto|eapply exact_view_pins; eauto].
@@ -71,19 +72,19 @@ Print Assumptions exact_block_is_pins_only.
    the same command, product and flags, its original expression (bracketed or relative) and, unless the
    productList overrides it, its original explicit version; the version written is the productList's, the
    original one, or the one that is set up *)
-Theorem keeps_inexact_constraints jf sf w e top plist force rd ls out :
-  expand_gen jf sf w e top plist force rd ls = Ok out ->
+Theorem keeps_inexact_constraints jf sf cf w e top plist force rd ls out :
+  expand_gen jf sf cf w e top plist force rd ls = Ok out ->
   Forall2 (carries w e plist) (setups_in ls) (setups_of (inexact_view out)).
 Proof.
-  intro E. unfold inexact_view. rewrite (inexact_setup_lines jf sf w e top plist force rd ls out E).
+  intro E. unfold inexact_view. rewrite (inexact_setup_lines jf sf cf w e top plist force rd ls out E).
   apply Forall2_map_r. apply rewrite_carries.
 Qed.
 Print Assumptions keeps_inexact_constraints.
 
 (* lines other than setup commands pass unchanged and in order: the commands in both readings, the
    comment lines in the non-exact reading (a comment inside a run of setup lines stays with them) *)
-Theorem passes_other_lines jf sf w e top plist force rd ls out :
-  expand_gen jf sf w e top plist force rd ls = Ok out ->
+Theorem passes_other_lines jf sf cf w e top plist force rd ls out :
+  expand_gen jf sf cf w e top plist force rd ls = Ok out ->
   others_of (exact_view out) = others_in ls /\
   others_of (inexact_view out) = others_in ls /\
   comments_of (inexact_view out) = comments_in ls.
@@ -104,8 +105,8 @@ Print Assumptions passes_other_lines.
    the forced decisions, records the top product and every pin at its explicit version - each of which was
    recorded when the table was written or given in the productList - and touches no other SETUP_
    variable. *)
-Theorem exact_replay_records_pins jf sf w e top plist force rd ls out w' cfg interp ptop topv absent fuel st0 :
-  expand_gen jf sf w e top plist force rd ls = Ok out ->
+Theorem exact_replay_records_pins jf sf cf w e top plist force rd ls out w' cfg interp ptop topv absent fuel st0 :
+  expand_gen jf sf cf w e top plist force rd ls = Ok out ->
   c_max_depth cfg = None ->
   find_pv w' top topv = Some ptop ->
   p_actions ptop = exact_actions interp (exact_view out) ++ map absent_action absent ->
@@ -146,8 +147,8 @@ Print Assumptions exact_replay_records_pins.
    Conclusion: after the replay from a shell where nothing is set up, (a) every version recorded at build
    time is recorded again, and (b) whatever is recorded, apart from top, was recorded at build time at that
    very version. *)
-Theorem exact_reproduces_partial jf sf w e top force rd ls out w' cfg interp ptop topv absent fuel st0 :
-  expand_gen jf sf w e top [] force rd ls = Ok out ->
+Theorem exact_reproduces_partial jf sf cf w e top force rd ls out w' cfg interp ptop topv absent fuel st0 :
+  expand_gen jf sf cf w e top [] force rd ls = Ok out ->
   (forall n v, recorded e n v -> upper_str n <> upper_str top ->
      exists x, In x (pins_of out) /\ upper_str (pin_name x) = upper_str n /\ snd (fst x) = v) ->
   c_max_depth cfg = None ->
@@ -172,19 +173,20 @@ Theorem exact_reproduces_partial jf sf w e top force rd ls out w' cfg interp pto
 Proof. apply reproduces. Qed.
 Print Assumptions exact_reproduces_partial.
 
-(* the exact block is complete for what the table names: when no dependency list demands a product that
-   is not set up ([closed]: the closure below every line can be collected), every set-up product named by a
-   line of the table, and every set-up product in the dependency list of a line that does not carry -j, is
-   pinned at its set-up version *)
+(* the exact block is complete for what the table names, whenever the table could be expanded at all: every
+   set-up product named by a line of the table, and every set-up product in the dependency list of a line that
+   does not carry -j, is pinned at its set-up version.  No hypothesis on the dependency lists: where a list
+   demands a product that is not set up (a product below the line's was set up without its dependencies, -j),
+   either the expansion fails (required line, no --force) or the line's product stays in the block with all
+   that is set up below it (the repair cfix; the pinned tree dropped it: closure_error_drops_refuted_pinned) *)
 Theorem exact_block_complete w e top force rd ls out s n v :
   expand w e top [] force rd ls = Ok out ->
-  closed w e rd ->
   In (LSetup s) ls -> sl_name s <> top -> recorded e (sl_name s) v -> v <> [] ->
   (n = sl_name s \/
    (mem_str (lit "-j") (sl_flags s) = false /\ find_pv w (sl_name s) v <> None /\
     exists d p, In d (lookup_raw rd (sl_name s) v) /\ d_name d = n /\ find_setup_product w e n = Some p)) ->
   exists o v', In (OPin o n v') out /\ recorded e n v'.
-Proof. apply block_complete. Qed.
+Proof. apply block_complete_open. Qed.
 Print Assumptions exact_block_complete.
 
 (* ------------------------------------------------------------ examples *)
@@ -345,11 +347,41 @@ Definition oraw : rawdeps :=
 Definition olines : list tline :=
   [ LSetup (sl false "c" [] None None "setupRequired(c)"); LSetup (sl true "b" [] None None "setupOptional(b)") ].
 Example optional_subtree_refuted_pinned :
-  option_map (fun o => shown (pins_of o)) (ok_out (expand_gen true false jworld jenv (lit "top") [] false oraw olines))
+  option_map (fun o => shown (pins_of o)) (ok_out (expand_gen true false false jworld jenv (lit "top") [] false oraw olines))
     = Some [("c", "1.0", false)]%string /\
   option_map (fun o => shown (pins_of o)) (ok_out (expand jworld jenv (lit "top") [] false oraw olines))
     = Some [("c", "1.0", false); ("b", "1.0", true)]%string.
 Proof. split; vm_compute; reflexivity. Qed.
+
+(* p1 requires zz, which does not exist; p2 asks for p1 optionally - that setup fails part-way and is rolled
+   back - and the top table then sets p1 up without its dependencies (-j).  The closure below p2 meets p1, which
+   is set up, and then zz, which is not.  Pinned (with the two earlier repairs): p2, named by an optional line
+   and set up, is silently left out of the exact block; repaired: it stays *)
+Definition cworld : world :=
+  [ xprod "p1" "2.0" [ASetup false (lit "zz") false]; xprod "p2" "1.0" [ASetup true (lit "p1") false];
+    xprod "p3" "2.0" [ASetup true (lit "p2") false; ASetup true (lit "p1") true] ].
+Definition cenv : amap str :=
+  [ (lit "SETUP_P3", lit "p3 2.0 -f Linux64 -Z /s"); (lit "SETUP_P2", lit "p2 1.0 -f Linux64 -Z /s");
+    (lit "SETUP_P1", lit "p1 2.0 -f Linux64 -Z /s") ].
+Definition craw : rawdeps :=
+  [ (lit "p2", lit "1.0", [ {| d_name := lit "p1"; d_optional := true; d_depth := 1 |};
+                            {| d_name := lit "zz"; d_optional := false; d_depth := 2 |} ]) ].
+Definition clines : list tline :=
+  [ LSetup (sl true "p2" [] None None "setupOptional(p2)");
+    LSetup (sl true "p1" [lit "-j"] None None "setupOptional(p1 -j)") ].
+Example closure_error_drops_refuted_pinned :
+  option_map (fun o => shown (pins_of o)) (ok_out (expand_gen true true false cworld cenv (lit "p3") [] false craw clines))
+    = Some [("p1", "2.0", true)]%string /\
+  option_map (fun o => shown (pins_of o)) (ok_out (expand cworld cenv (lit "p3") [] false craw clines))
+    = Some [("p2", "1.0", true); ("p1", "2.0", true)]%string /\
+  (* the build environment is what Model/Setup.v gives for setup p3: p3, p2, p1 (fails: zz, rolled back), p1 -j *)
+  match setup cworld xcfg 4 xst0 [Some (lit "2.0"); Some (lit "1.0"); Some (lit "2.0"); None; Some (lit "2.0")]
+              (lit "p3") true 0 false with
+  | RDone true st' [] => map (fun n => option_map String.string_of_list_ascii (setup_version (s_env st') (lit n)))
+                             ["p3"; "p2"; "p1"; "zz"]%string
+  | _ => []
+  end = [Some "2.0"; Some "1.0"; Some "2.0"; None]%string.
+Proof. repeat split; vm_compute; reflexivity. Qed.
 
 (* a diamond with a conflict (a 1.0 and a 2.0 both wanted): only the version that is set up is pinned *)
 Example conflict_pins_the_set_up_version :
